@@ -65,6 +65,11 @@ class Runner(Exec):
             return
         self.ev(st, s.value)
 
+    def st_FunctionDef(self, st, s):
+        # a nested function: calls to it are inlined in the environment of the enclosing function (closure)
+        st.env[s.name] = mk_conc(LocalFn(s))
+        st.defd[s.name] = z3.BoolVal(True)
+
     def st_Global(self, st, s):
         raise Unsupported("global statement", s)
 
@@ -567,10 +572,36 @@ class Runner(Exec):
                 return None
             return v
 
+        def probe(expr):
+            """Kind of an expression (evaluated at the loop head, ignoring stability): only the SV kind is used."""
+            saved = ctx.spec_mode
+            ctx.spec_mode = True
+            try:
+                return self.ev(st.fork(), expr)
+            except Unsupported:
+                return None
+            finally:
+                ctx.spec_mode = saved
+
         def store_target(tgt):
             if isinstance(tgt, (ast.Tuple, ast.List)):
                 for t in tgt.elts:
                     store_target(t)
+            elif isinstance(tgt, ast.Subscript) and (probe(tgt.value) is not None and probe(tgt.value).k in ("lorow", "gridrow")
+                                                     or probe(tgt.value) is not None and probe(tgt.value).k == "ref"
+                                                     and str(probe(tgt.value).x).startswith(("lomap", "grid"))):
+                pv = probe(tgt.value)
+                if pv.k in ("lorow", "gridrow"):
+                    owner = stable_ref(tgt.value.value) if isinstance(tgt.value, ast.Subscript) else None
+                else:
+                    owner = stable_ref(tgt.value)
+                rz = owner.z if (owner is not None and owner.k == "ref") else None
+                if pv.k == "gridrow" or (pv.k == "ref" and str(pv.x).startswith("grid")):
+                    add(rz, "g_val")
+                else:
+                    add(rz, "lo_row")
+                    add(rz, "lo_has")
+                    add(rz, "lo_val")
             elif isinstance(tgt, ast.Subscript):
                 base = stable_ref(tgt.value)
                 key = None
@@ -669,6 +700,11 @@ def _arrays_in(e):
         elif z3.is_quantifier(t):
             stack.append(t.body())
     return out
+
+
+class LocalFn(object):
+    def __init__(self, node):
+        self.node = node
 
 
 class ExcInstance(object):
